@@ -52,14 +52,8 @@ func sweepV3Lift[T comparable, P Object[T]](r *Report, im *Impl[T, P], devs []v3
 	Iterate(im, dims, bg, 16, func(idx int, a spec.Assignment, o *T) {
 		n.Add(idx, 1)
 		if key, exp, obs := each(a, o); key != "" {
-			ac := a.Clone()
-			r.Violation(Case{Kind: "v3-score", Key: key, Expected: exp, Observed: obs + " on " + P(o).Vector(),
-				Args: map[string]any{"version": ver.Name, "vector": ver.Full(a)}},
-				func() bool {
-					oo, _ := NewOS(im, NewReport("x", "quick", 0)).Build(ac)
-					k, _, _ := each(ac, &oo)
-					return k != ""
-				})
+			iterViolation(r, im, dims, bg, 16, idx, a, "v3-score", key, exp, obs+" on "+P(o).Vector(), nil,
+				func(a spec.Assignment, o *T) string { k, _, _ := each(a, o); return k })
 		}
 	}, func(a spec.Assignment, why string) {
 		r.Violation(Case{Kind: "v3-score", Key: "v" + ver.Name + "/score/cannot-build", Expected: "object built by Set reads back", Observed: why, Args: map[string]any{"version": ver.Name, "vector": ver.Full(a)}}, nil)
